@@ -124,7 +124,9 @@ def main(argv=None):
     canary_results = {}
     with ThreadPoolExecutor(max_workers=a.jobs) as ex:
         futs = [(c[0], ex.submit(run_worker, pid, tier, c[0], c[1])) for c in cases]
-        cfuts = [(cn, case, ex.submit(run_worker, pid, tier, case, tmo.get(case, 300), cn)) for cn, case in canary_jobs]
+        # canaries are a self-test of discriminating power: capped at 400 s each (a mutation that only makes the solver slow
+        # is reported as surviving, it does not hold up the check)
+        cfuts = [(cn, case, ex.submit(run_worker, pid, tier, case, min(tmo.get(case, 300), 400), cn)) for cn, case in canary_jobs]
         for name, f in futs:
             r_ = f.result()
             results.append(r_)
